@@ -400,8 +400,10 @@ Fixpoint src_leaves (fuel : nat) (el : node) (host_lazy : bool) {struct fuel} : 
                              end) cs
           ++ flat_map (fun d => match d with ADir _ v a _ => (v, eager) :: match a with Some x => [(x, eager)] | None => [] end end) dirs
           ++ (match vslots with
-              | Some (Obj ps) => if is_comp then map (fun x => (x, eager)) (flat_map prop_exprs ps) else []
-              | Some e => if is_comp then [(e, eager)] else []   (* element host: see vslots_dropped *)
+              | Some (Obj ps) => map (fun x => (x, if is_comp then eager else 2%nat)) (flat_map prop_exprs ps)
+              | Some e => [(e, if is_comp then eager else 2%nat)]
+                (* element host: the v-slots value is dropped, or - with a sole object / function child -
+                   merged into the slots object (both known findings): exempt from the count *)
               | None => []
               end)
           ++ (let live := live_children children in
